@@ -30,6 +30,7 @@ ExpectedOk(scn) ==
     [] scn = "strlen-below" -> 1
     [] scn = "strlen-at" -> 1
     [] scn = "strlen-over" -> 0
+    [] scn = "sharers" -> 65540        \* users of one copied string, far below the limits of 4-byte slot ids
 
 \* one-slot values that still fit after the two-slot scenario stopped
 ExpectedExtra(scn) ==
@@ -44,7 +45,7 @@ Require(c, what) == IF c THEN TRUE ELSE Reject(what)
 
 Limit(ev) ==
   /\ Require(ev.scn \in {"elems32", "elems64", "members", "shared", "deser-at", "deser-over",
-                         "strlen-below", "strlen-at", "strlen-over"},
+                         "strlen-below", "strlen-at", "strlen-over", "sharers"},
              "unknown scenario or ledger not empty after destruction: " \o ev.scn)
   /\ Require(ev.ok = ExpectedOk(ev.scn), "number of operations that succeeded before the limit is not the model's")
   /\ Require(ev.extra = ExpectedExtra(ev.scn), "slots left after the limit was hit differ (the failed operation leaked or wrapped)")
@@ -55,6 +56,10 @@ Limit(ev) ==
             /\ Require(~ev.failret, "the operation beyond the limit reported success")
             /\ Require(ev.ovf, "overflowed() not set at the limit")
             /\ Require(ev.reusable, "document not usable again after a removal")
+       [] ev.scn = "sharers" ->
+            \* nothing is refused: more users than 16 bits can count share one copied string
+            /\ Require(~ev.failret /\ ~ev.ovf, "an addition far below the limits was refused")
+            /\ Require(ev.reusable, "the shared string is not usable after one user was removed")
        [] ev.scn = "deser-at" ->
             /\ Require(ev.failret, "an input that exactly fits was not accepted")
             /\ Require(~ev.ovf, "overflowed() set although the input fits")
